@@ -16,7 +16,8 @@ RULE = ('cases = kernel (euclidean/manhattan/hamming) x dtype (int8-int64, '
         'plain, ASan+UBSan and TSan(+happens-before interposer) builds; '
         'non-trivial = valid call on a non-contiguous layout or with '
         'full-range values or with a strided out buffer; distinct by (kernel, '
-        'dtype, layout, value class, out kind, shape, threads)')
+        'dtype, layout, value class, out kind, shape, threads); 12% of the '
+        'cases have 1-5 rows of 1024-20000 columns')
 REQUIRED = ['kernel_calls', 'values_compared', 'hostile_calls_rejected',
             'guard_bands_checked']
 ASSUMPTIONS = [
@@ -85,8 +86,14 @@ def exact(kernel, X, y):
     n = len(X)
     if kernel == 'hamming':
         d = X.shape[1]
-        return np.array([float(sum(1 for a, b in zip(r, y) if a != b)) / d
-                         for r in X.tolist()] if n else []), np.zeros(n)
+        return ((X != y[None, :]).sum(axis=1) / float(d) if n
+                else np.zeros(0)), np.zeros(n)
+    if np.issubdtype(X.dtype, np.integer) and X.shape[1] > 64 and \
+            X.dtype.itemsize <= 2:
+        D = X.astype(np.int64) - y.astype(np.int64)[None, :]   # exact
+        if kernel == 'euclidean':
+            return np.sqrt((D * D).sum(axis=1).astype(float)), np.zeros(n)
+        return np.abs(D).sum(axis=1).astype(float), np.zeros(n)
     if np.issubdtype(X.dtype, np.integer):
         yl = [int(v) for v in y.tolist()]
         out, allow = [], []
@@ -188,6 +195,10 @@ def one_call(ctx, rng, tag=''):
     dtype = dts[int(rng.integers(0, len(dts)))]
     n = [0, 1, 2, 3, 7, 64, int(rng.integers(1, 301))][int(rng.integers(0, 7))]
     d = int(rng.integers(1, 18))
+    if rng.random() < 0.12:
+        # few, very long rows (fewer rows than threads) / one huge dimension
+        n = int(rng.integers(1, 6))
+        d = [1024, 4096, 5000, 8191, 20000][int(rng.integers(0, 5))]
     vclass = ['small', 'small', 'full', 'adjacent'][int(rng.integers(0, 4))]
     lay = LAYOUTS[int(rng.integers(0, len(LAYOUTS)))]
     okind = ['none', 'none', 'contig', 'strided'][int(rng.integers(0, 4))]
